@@ -270,7 +270,8 @@ pub fn wait_until(mut f: impl FnMut() -> bool) -> bool {
         if i < 50 {
             std::thread::yield_now();
         } else {
-            std::thread::sleep(std::time::Duration::from_micros(200));
+            // (virtual sleeps are free under Miri, polls are not)
+            std::thread::sleep(std::time::Duration::from_micros(if cfg!(miri) { 250_000 } else { 200 }));
         }
         if t0.elapsed().as_secs() >= 20 * CAP_SCALE {
             return false;
